@@ -1,25 +1,31 @@
 /-
   Props.C05.Tree — make_tree (decode.c) against the Spec.
 
-  Proved here: the accept / ERR_INCOMPLT / ERR_PREFIX verdict is exactly the
-  Kraft comparison, and the canonical walk of the lookup is stopped by the
-  `base[21] = UINT64_MAX` sentinel.
-
-  NOT proved (time): `makeTree_sound` — that for a complete length list the
-  start/base/count/perm lookup on any 64-bit window returns the same (symbol,
-  length) as `Spec.decodeSym`, with the symbol renumbered by
-  `Model.Canon.renumber` — and the second half of `canon_lookup_bound` (the
-  `perm` index is below `alpha_size`; every `start[]` entry above
-  HUFF_START_WIDTH is at most 20).  What is missing is the rank formula
-  `offset20 lens i = S(ℓᵢ) + rankᵢ·2^(20-ℓᵢ)` and the list-index bookkeeping
-  from it to `mkBase`/`mkCount`/`mkPerm`/`mkStart`.  Until then that statement
-  is covered only by the correspondence campaign (checks/w11_prefix.py, part
-  `tree`): C tables = model tables entry by entry, and C lookup = model lookup
-  = bit-by-bit reference decoder on every code word with zero/one/random tails.
+  Proved here:
+    * `makeTree_kraft` — the accept / ERR_INCOMPLT / ERR_PREFIX verdict is
+      exactly the Kraft comparison;
+    * `makeTree_sound` — for a complete length list the start/base/count/perm
+      lookup of `retrieve()` on ANY 64-bit window returns the same (symbol,
+      length) as the bit-by-bit reference decoders `Spec.Prefix.decodeSym` and
+      `Spec.Bzip2.decodeSym (mkCode lens)`, the symbol renumbered by
+      `Model.Canon.renumber` (RUN_A = 257, RUN_B = 258, MTF value s − 1,
+      EOB = 0);
+    * `canon_lookup_bound` — no table access of the lookup is out of bounds:
+      the `start[]` entry is a length ≤ 20, the canonical walk stops at ≤ 20
+      (sentinel `base[21] = UINT64_MAX`), the `perm` index is below
+      `alpha_size`;
+    * `canon_lookup_bound_partial` — the sentinel argument alone, for ANY
+      length list (kept from W11).
+  The lemmas are in Lemmas/TreeSoundArith.lean (the code intervals tile
+  [0, 2^20): bands `S ℓ ≤ x < S (ℓ+1)`, rank inside the band),
+  Lemmas/TreeSoundTables.lean (every entry of base/count/perm/start) and
+  Lemmas/TreeSound.lean (`lookup_sound`); the key ingredient is the rank formula
+  `TransmitSym.canonCode_rank`.
 -/
 import LbzVerif.Spec.Prefix
 import LbzVerif.Model.Canon
 import LbzVerif.Lemmas.PrefixTree
+import LbzVerif.Lemmas.TreeSound
 
 namespace LbzVerif.Props.C05.Tree
 open LbzVerif LbzVerif.Spec.Prefix LbzVerif.Model.Canon LbzVerif.Lemmas.PrefixTree
@@ -73,5 +79,186 @@ theorem canon_lookup_bound_partial (lens : List Nat) (v : Nat) (hv : v < 2 ^ 64 
 
 example : lookup (mkTree [1, 2, 3, 4, 5, 6, 7, 8, 9, 10, 11, 12, 12]) (2 ^ 64 - 2) = some (0, 12) := by
   decide +kernel
+
+/-! ### `makeTree_sound` -/
+
+open LbzVerif.Lemmas.PrefixCanon LbzVerif.Lemmas.TransmitSym LbzVerif.Lemmas.TreeSoundArith
+  LbzVerif.Lemmas.TreeSound LbzVerif.Lemmas.TreeSoundTables
+
+theorem natToBits_split (a b v : Nat) :
+    Basic.natToBits (a + b) v = Basic.natToBits a (v >>> b) ++ Basic.natToBits b v := by
+  induction a with
+  | zero => simp [Basic.natToBits]
+  | succ a ih =>
+    rw [show a + 1 + b = (a + b) + 1 by omega, Basic.natToBits, Basic.natToBits, ih,
+      Nat.testBit_shiftRight, List.cons_append]
+    congr 2
+    omega
+
+theorem bitsMSB_eq (n v : Nat) : bitsMSB n v = Basic.natToBits n v := by
+  induction n with
+  | zero => rfl
+  | succ n ih =>
+    rw [bitsMSB, Basic.natToBits, ih]
+    congr 1
+    unfold Spec.Prefix.bit
+    rw [Nat.testBit_eq_decide_div_mod_eq]
+
+/-- The top `ℓ` bits of a window whose top 20 bits lie in the interval of
+symbol `i` are the code word of `i`. -/
+theorem window_code (lens : List Nat) (v l r i : Nat) (h : Dec lens (v / 2 ^ 44) l r i) :
+    v >>> (64 - l) = canonCode lens i := by
+  rw [h.code, Nat.shiftRight_eq_div_pow, Nat.div_div_eq_div_mul]
+  congr 1
+  unfold width
+  rw [← Nat.pow_add]
+  congr 1
+  have := h.l20
+  omega
+
+/-- **makeTree_sound.**  `lens` complete (Kraft sum one, lengths 1…20), at most
+258 symbols, `v` any 64-bit window except `2^64 − 1` (which the bit buffer of
+`retrieve()` cannot hold: it never has 64 live bits, so the lowest bit is 0).
+Then there is a symbol `i` such that
+  * the table lookup of `retrieve()` on the tables built by `make_tree`
+    returns `i` in the decoder's internal numbering, with its code length,
+  * the bit-by-bit reference `Spec.Prefix.decodeSym` reads `i` from the 64 bits
+    of the window (followed by anything) and leaves the bits after the code,
+  * the oracle's decoder `Spec.Bzip2.decodeSym (mkCode lens)` does the same. -/
+theorem makeTree_sound (lens : List Nat) (hc : Complete lens) (hn : lens.length ≤ Gen.MAX_ALPHA_SIZE)
+    (v : Nat) (hv : v < 2 ^ 64 - 1) (pos : Nat) (rest : List Bool) :
+    ∃ i, i < lens.length ∧
+      lookup (mkTree lens) v = some (renumber lens.length i, lens[i]!) ∧
+      Spec.Prefix.decodeSym lens (Basic.natToBits 64 v ++ rest) =
+        some (i, Basic.natToBits (64 - lens[i]!) v ++ rest) ∧
+      Spec.Bzip2.decodeSym (Spec.Bzip2.mkCode lens) pos (Basic.natToBits 64 v ++ rest) =
+        .ok (i, pos + lens[i]!, Basic.natToBits (64 - lens[i]!) v ++ rest) := by
+  obtain ⟨l, r, i, hd, hl⟩ := lookup_sound lens hc hn v hv
+  have l20 := hd.l20
+  have hsplit : Basic.natToBits 64 v = Basic.natToBits l (canonCode lens i) ++ Basic.natToBits (64 - l) v := by
+    rw [← window_code lens v l r i hd, ← natToBits_split]
+    congr 1
+    omega
+  refine ⟨i, hd.i_lt, by rw [hd.len]; exact hl, ?_, ?_⟩
+  · rw [hd.len, hsplit, List.append_assoc, ← bitsMSB_eq]
+    have := decodeSym_encodeSym lens hc i hd.i_lt (Basic.natToBits (64 - l) v ++ rest)
+    unfold encodeSym at this
+    rw [hd.len] at this
+    exact this
+  · rw [hd.len, hsplit, List.append_assoc]
+    have := decodeSym_canon lens hc i hd.i_lt pos (Basic.natToBits (64 - l) v ++ rest)
+    rw [hd.len] at this
+    exact this
+
+-- the window 1011… under the code [2,3,1,3,…]: not vacuous — a concrete complete table
+example : ∃ i, i < 4 ∧ lookup (mkTree [2, 3, 1, 3]) (0xB000000000000000) = some (renumber 4 i, [2, 3, 1, 3][i]!) :=
+  let ⟨i, h1, h2, _⟩ := makeTree_sound [2, 3, 1, 3] (by decide) (by decide) 0xB000000000000000 (by decide) 0 []
+  ⟨i, h1, h2⟩
+
+example : lookup (mkTree [2, 3, 1, 3]) (0xB000000000000000) = some (257, 2) ∧
+    Spec.Prefix.decodeSym [2, 3, 1, 3] [true, false, true, true] = some (0, [true, true]) ∧
+    Complete [2, 3, 1, 3] := by decide +kernel
+
+/-! ### `canon_lookup_bound` -/
+
+theorem walkUp_ge (B : List Nat) (v : Nat) : ∀ fuel k, k ≤ walkUp B v fuel k := by
+  intro fuel
+  induction fuel with
+  | zero => intro k; exact Nat.le_refl _
+  | succ f ih =>
+    intro k
+    unfold walkUp
+    split
+    · have := ih (k + 1); omega
+    · exact Nat.le_refl _
+
+theorem I_cons (a : Nat) (t : List Nat) (k : Nat) :
+    I (a :: t) k = I t k + (if a < k then 1 else 0) := by
+  induction k with
+  | zero => simp [I]
+  | succ k ih =>
+    rw [I, I, ih]
+    unfold cntL
+    rw [List.count_cons]
+    by_cases h1 : a < k
+    · have h2 : a < k + 1 := by omega
+      have hne : (a == k) = false := by simp; omega
+      simp [h1, h2, hne]; omega
+    · by_cases h2 : a = k
+      · subst h2; simp; omega
+      · have h3 : ¬ a < k + 1 := by omega
+        have hne : (a == k) = false := by simp; omega
+        simp [h1, h3, hne]
+
+theorem I_nil (k : Nat) : I [] k = 0 := by
+  induction k with
+  | zero => rfl
+  | succ k ih => simp [I, ih, cntL]
+
+theorem I_countP (lens : List Nat) (k : Nat) : I lens k = lens.countP (fun x => decide (x < k)) := by
+  induction lens with
+  | nil => simp [I_nil]
+  | cons a t ih =>
+    rw [I_cons, ih, List.countP_cons]
+    by_cases h : a < k <;> simp [h]
+
+theorem perm_length (lens : List Nat) (hr : ∀ l ∈ lens, 1 ≤ l ∧ l ≤ 20) :
+    (mkPerm lens).length = lens.length := by
+  rw [perm_eq', List.length_map]
+  have h0 : cntL lens 0 = 0 := cntL_zero lens (fun x hx => (hr x hx).1)
+  have hlen : ∀ k a, ((List.range' a k).flatMap (blk lens)).length = ((List.range' a k).map (cntL lens)).sum := by
+    intro k
+    induction k with
+    | zero => intro a; simp
+    | succ k ih => intro a; rw [List.range'_succ, List.flatMap_cons, List.length_append, ih, blk_length]; simp
+  rw [hlen]
+  have := I_add lens 1 20
+  rw [I_one lens h0, Nat.zero_add] at this
+  rw [← this, I_countP, List.countP_eq_length]
+  intro x hx
+  have := (hr x hx).2
+  simp; omega
+
+/-- **canon_lookup_bound.**  For a complete table of at most 258 symbols and any
+window `v < 2^64 − 1`, every array access of the lookup in `retrieve()` is in
+bounds: the 5-bit length field `k` of the `start[]` entry is at most 20; when
+it exceeds HUFF_START_WIDTH the canonical walk `while (v >= base[k+1]) k++`
+stops at `k' ≤ 20` (so `base[k'+1]`, `count[k']` exist), and the index into
+`perm[]`, `count[k'] + ((v − base[k']) >> (64 − k'))`, is below `alpha_size`
+(= the number of entries of `perm[]`). -/
+theorem canon_lookup_bound (lens : List Nat) (hc : Complete lens) (hn : lens.length ≤ Gen.MAX_ALPHA_SIZE)
+    (v : Nat) (hv : v < 2 ^ 64 - 1) :
+    let t := mkTree lens
+    let k := t.start.getD (v >>> (64 - Gen.HUFF_START_WIDTH)) 0 &&& 0x1F
+    let k' := walkUp t.base v (Gen.MAX_CODE_LENGTH + 1) k
+    t.perm.length = lens.length ∧ k ≤ Gen.MAX_CODE_LENGTH ∧
+      (Gen.HUFF_START_WIDTH < k → k' ≤ Gen.MAX_CODE_LENGTH ∧
+        t.count.getD k' 0 + (((v + M64 - t.base.getD k' 0) % M64) >>> (64 - k')) < lens.length) := by
+  intro t k k'
+  have hpl : t.perm.length = lens.length := perm_length lens hc.2
+  obtain ⟨l, r, i, hd, hl⟩ := lookup_sound lens hc hn v hv
+  have hsw : SW = Gen.HUFF_START_WIDTH := rfl
+  have hml : MAXL = Gen.MAX_CODE_LENGTH := rfl
+  have h10 : Gen.HUFF_START_WIDTH = 10 := rfl
+  have h20 : Gen.MAX_CODE_LENGTH = 20 := rfl
+  unfold lookup at hl
+  simp only at hl
+  rw [hsw, hml] at hl
+  change (if k ≤ Gen.HUFF_START_WIDTH then _ else
+    (if k' > Gen.MAX_CODE_LENGTH then none else _)) = _ at hl
+  by_cases hk : k ≤ Gen.HUFF_START_WIDTH
+  · exact ⟨hpl, by omega, fun h => by omega⟩
+  · rw [if_neg hk] at hl
+    by_cases hk' : k' > Gen.MAX_CODE_LENGTH
+    · rw [if_pos hk'] at hl; cases hl
+    · rw [if_neg hk'] at hl
+      have hge : k ≤ k' := walkUp_ge _ _ _ _
+      refine ⟨hpl, by omega, fun _ => ⟨by omega, ?_⟩⟩
+      rw [← hpl]
+      split at hl
+      · assumption
+      · cases hl
+
+example : Complete [1, 2, 3, 4, 5, 6, 7, 8, 9, 10, 11, 12, 12] := by decide
 
 end LbzVerif.Props.C05.Tree
